@@ -566,7 +566,7 @@ def scalar_values(t: str, *, json64: bool = False):
                          st.sampled_from([uuid.UUID(int=0), uuid.UUID(int=2 ** 128 - 1), uuid.UUID(int=1)]))
     if t in ("PurePosixPath", "PureWindowsPath", "Path"):
         cls = SCALAR_CLASS[t]
-        seg = st.sampled_from(["a", "b.txt", "1", "null", "..", "x y", "1.5", "true", "dir", "0", "é", "[1]"])
+        seg = st.sampled_from(["a", "b.txt", "1", "null", "..", "x y", "1.5", "true", "dir", "0", "é", "[1]", '"a"', "'q'", '"1"'])
         root = st.sampled_from(["", "/"] if t != "PureWindowsPath" else ["", "C:/", "/", "//srv/share/"])
         return st.builds(lambda r, segs: cls(r + "/".join(segs)) if (r or segs) else cls("."), root, st.lists(seg, max_size=4))
     if t == "Pattern":
